@@ -191,11 +191,13 @@ ExpectL2(b) ==
 AppCtxUdp(b) ==
     LET u == UdpCtx(b) IN
     [ transport |-> "udp", ver |-> u.ver, src |-> u.src, dst |-> u.dst,
-      sport |-> u.sport, dport |-> u.dport ]
+      sport |-> u.sport, dport |-> u.dport, nbt |-> TRUE, over |-> FALSE ]
 AppCtxTcp(b) ==
     LET t == TcpCtx(b) IN
     [ transport |-> "tcp", ver |-> t.ver, src |-> t.src, dst |-> t.dst,
-      sport |-> t.sport, dport |-> t.dport ]
+      sport |-> t.sport, dport |-> t.dport,
+      nbt  |-> IF t.flow \in DOMAIN tcb THEN tcb[t.flow].nbt ELSE TRUE,     \* every earlier segment: one NetBIOS message
+      over |-> IF t.flow \in DOMAIN tcb THEN tcb[t.flow].over ELSE FALSE ]  \* the stream outgrew what the model keeps
 
 UdpPayload(b) == LET u == UdpCtx(b) IN Bytes(b, u.ps, u.pe)
 TcpPayload(b) == LET t == TcpCtx(b) IN Bytes(b, t.ps, t.pe)
@@ -592,10 +594,15 @@ AfterTcb(b, obs) ==
     ELSE LET t   == TcpCtx(b)
              pay == TcpPayload(b)
              old == StreamBefore(t.flow)
-             new == IF Len(old) + Len(pay) <= StreamCap THEN old \o pay ELSE old
+             fits == Len(old) + Len(pay) <= StreamCap
+             new == IF fits THEN old \o pay ELSE old
              rs  == L4Start(obs.rep)
              carried == Len(obs.rep) > rs + 20
-         IN (t.flow :> [ stream |-> new, done |-> DoneBefore(t.flow) \/ carried ]) @@ tcb
+             c   == AppCtxTcp(b)
+             whole == pay = << >> \/ (Len(pay) >= 4 /\ pay[1] = 0
+                                        /\ 4 + (pay[2] % 2) * 65536 + pay[3] * 256 + pay[4] = Len(pay))
+         IN (t.flow :> [ stream |-> new, done |-> DoneBefore(t.flow) \/ carried,
+                         nbt |-> c.nbt /\ whole, over |-> c.over \/ ~fits ]) @@ tcb
 
 AfterCk(b, obs) ==
     LET o == ExpectL2(b) IN
